@@ -154,7 +154,8 @@ where
                     span,
                     format!(
                         "unknown query definition arguments {}",
-                        args.keys().map(|x| format!("`{x}`")).join(", ")
+                        // sorted: `args` is a hash map
+                        args.keys().sorted().map(|x| format!("`{x}`")).join(", ")
                     ),
                 ));
             }
